@@ -20,7 +20,7 @@ class StoreProfile(Profile):
     def vocab(self, run):
         v = run.scratch.get("vocab")
         if v is None:
-            v = run.scratch["vocab"] = Vocab(run.m, names=self.names)
+            v = run.scratch["vocab"] = Vocab(run.m, names=self.names, crowd=bool((run.params or {}).get("crowd")))
         return v
 
     # ------------------------------------------------------------------ universe
@@ -31,6 +31,29 @@ class StoreProfile(Profile):
         steps = []
         cfgs = cfgs or m.configs
         tries = 0
+        if (run.params or {}).get("crowd") and not run.scratch.get("crowded"):
+            # one crowded directory: many siblings at one unconstrained level (thresholds on list / directory size)
+            run.scratch["crowded"] = True
+            cfg = m.default_config
+            t = rng.choice(creatable_types(m, vocab, cfg))
+            frees = [i for i, k in enumerate(m.by_name[t].keys) if m.vocab(t, k)[0] == "free"]
+            base = gen_sid(rng, m, vocab, t, pool, reuse=0.8)
+            if base and frees:
+                i = frees[-1]
+                from .base import CROWD_NAMES
+                for nm in rng.sample(CROWD_NAMES, rng.choice([rng.randint(18, 40), rng.randint(52, 72), rng.randint(66, 100)])):
+                    segs = base.split("/")
+                    segs[i] = nm
+                    s2 = "/".join(segs)
+                    if m.natural_type(s2) != t or ("." in segs[-1] and not m.is_leaf_type(t)):
+                        continue
+                    if mirror and all(shadow.can_create(c, s2) == "ok" for c in m.configs):
+                        for c in m.configs:
+                            shadow.create(c, s2, None)
+                        steps.append({"op": "mirror", "sid": s2, "data": None})
+                    elif not mirror and shadow.can_create(cfg, s2) == "ok":
+                        shadow.create(cfg, s2, None)
+                        steps.append({"op": "create", "cfg": cfg, "sid": s2, "data": None})
         while len(steps) < n and tries < n * 6:
             tries += 1
             cfg = rng.choice(cfgs)
